@@ -54,7 +54,7 @@ template<class MS, class SetP> static void reuse_case(const std::string &nm, con
         { Out z=call(used,zero,x2); bool ok=!z.threw && z.it==0; for (auto &v : z.x) ok=ok&&hx::same_handle(v,scalar(0)); hx::require("zero right-hand side returns the zero vector in zero iterations", ok, "iters="+std::to_string(z.it)); }
         // initial guess that already solves the system: returned unchanged in zero iterations
         { std::vector<scalar> Ax=hx::dense_mv(A,x2); { scalar ff=0; for (auto &v : Ax) ff+=v*v; hx::assume(hx::le(scalar(1e-30),ff)); }   // right-hand sides below the trivial-solution threshold are cleared by design
-          Out c=call(used,Ax,x2); hx::require("an initial guess that already satisfies the system needs zero iterations and does not throw", !c.threw && c.it==0, "iters="+std::to_string(c.it)); if (!c.threw) hx::prove_eq_vec("an initial guess that already satisfies the system is returned unchanged", c.x, x2); }
+          Out c=call(used,Ax,x2); hx::require("an initial guess that already satisfies the system needs zero iterations and does not throw", !c.threw && c.it==0, "iters="+std::to_string(c.it)); if (!c.threw) { bool ident=true; for (int i=0;i<n;++i) ident=ident&&hx::same_handle(c.x[i],x2[i]); if (ident) hx::require("an initial guess that already satisfies the system is returned unchanged", true); else hx::prove_eq_vec("an initial guess that already satisfies the system is returned unchanged", c.x, x2); } }
         { bool same=true; for (size_t k=0;k<A.val.size();++k) same=same&&hx::same_handle(A.val[k],mat0[k]); hx::require("the caller's matrix storage is not modified", same); }
     }, coo);
 }
@@ -76,7 +76,7 @@ int main(int argc, char **argv) {
     hx::assume_note("LGMRES with always_reset=false is the documented exception; it is only checked to differ");
     std::vector<Pattern> pats{hx::grid_pattern(3,2),hx::band_pattern(6,1)}; if (T) { pats.push_back(hx::grid_pattern(3,3)); pats.push_back(hx::random_sym_pattern(7,rng,3)); }
     auto none=[](auto &) {};
-    for (auto &p : pats) for (int k=1;k<=(T?3:2);++k) { bool light = T || k==1;
+    for (auto &p : pats) for (int k=1;k<=(T?3:2);++k) { bool light = T || (k==1 && p.n<=6 && p.name[0]=='g');
         one<MS1,sv::cg<BE>>("amg-sa-spai0","cg",p,rng,k,none); one<MS2,sv::cg<BE>>("amg-agg-gs","cg",p,rng,k,none);
         one<MS1,sv::bicgstab<BE>>("amg-sa-spai0","bicgstab",p,rng,k,none); one<MS3,sv::bicgstab<BE>>("ilu0","bicgstab-left",p,rng,k,[](auto &s){ s.pside=amgcl::preconditioner::side::left; });
         if (light) one<MS1,sv::bicgstabl<BE>>("amg-sa-spai0","bicgstabl",p,rng,k,[](auto &s){ s.L=2; }); if (light) one<MS4,sv::bicgstabl<BE>>("dummy","bicgstabl-L1",p,rng,k,[](auto &s){ s.L=1; });
